@@ -11,6 +11,7 @@ package libp2p
 //                           be recover()-ed: these cases run in a child process (this test binary
 //                           re-executed on the input file); a crash is attributed to the case in
 //                           flight and the child restarted for the rest.
+//   e2e-stress              several hostile hosts at once against one Service (see c06RunStress)
 
 import (
 	"bufio"
@@ -27,8 +28,11 @@ import (
 	"os"
 	"os/exec"
 	"path/filepath"
+	"runtime"
 	"strconv"
 	"strings"
+	"sync"
+	"sync/atomic"
 	"testing"
 	"time"
 
@@ -39,6 +43,7 @@ import (
 	"github.com/libp2p/go-libp2p/core/host"
 	"github.com/libp2p/go-libp2p/core/network"
 	"github.com/libp2p/go-libp2p/core/peer"
+	"github.com/libp2p/go-libp2p/core/protocol"
 	discoverypb "github.com/primevprotocol/mev-commit/gen/go/discovery/v1"
 	handshakepb "github.com/primevprotocol/mev-commit/gen/go/handshake/v1"
 	preconfpb "github.com/primevprotocol/mev-commit/gen/go/preconfirmation/v1"
@@ -70,6 +75,10 @@ type c06In struct {
 	Cls      string `json:",omitempty"`
 	Variant  int    `json:",omitempty"`
 	Seed     int64  `json:",omitempty"`
+	// e2e-stress
+	DurMs     int `json:",omitempty"` // how long the hostile hosts keep going
+	Hammers   int `json:",omitempty"` // hosts opening and abandoning handshake streams
+	Streamers int `json:",omitempty"` // unregistered hosts opening protocol streams
 }
 
 func (in c06In) bytes() []byte {
@@ -542,7 +551,162 @@ func c06RunE2E(in c06In, slow time.Duration) (obs c06Obs) {
 	return c06Obs{Res: 0, Note: c06Short(note)}
 }
 
+
+const c06StressProto = "c06stress"
+
+// c06RunStress must only be called in a child process. A real Service with a protocol handler is
+// attacked for DurMs by several raw hosts at once: "hammers" keep opening handshake-protocol streams,
+// get the handler started (a partial frame) and abandon them in batches, one registered host keeps
+// completing valid handshakes again and again, and unregistered "streamers" keep opening streams of a
+// registered protocol. Nothing here is malformed at the transport level. A runtime fatal error (e.g.
+// concurrent map read and map write) or a panic in any goroutine of the Service ends the child and is
+// attributed to this case. Afterwards an honest peer must still get through.
+func c06RunStress(in c06In, slow time.Duration) (obs c06Obs) {
+	defer func() {
+		if r := recover(); r != nil {
+			obs = c06Obs{Panic: true, Note: fmt.Sprint(r)}
+		}
+	}()
+	if runtime.GOMAXPROCS(0) < 4 {
+		runtime.GOMAXPROCS(4)
+	}
+	r := rand.New(rand.NewSource(in.Seed))
+	svcKey, foreign, honestKey, regKey := c06KeyFrom(r), c06KeyFrom(r), c06KeyFrom(r), c06KeyFrom(r)
+	svc, err := c06NewService(svcKey, in.Registry)
+	if err != nil {
+		return c06Obs{Res: 2, Note: "service: " + err.Error()}
+	}
+	defer svc.Close()
+	svc.AddStreamHandlers(p2p.StreamDesc{Name: c06StressProto, Version: "1.0.0",
+		Handler: func(context.Context, p2p.Peer, p2p.Stream) error { return nil }})
+	target := peer.AddrInfo{ID: svc.host.ID(), Addrs: svc.host.Addrs()}
+	protoID := protocol.ID("/" + c06StressProto + "/1.0.0")
+	ctx, cancel := context.WithTimeout(context.Background(), 60*time.Second*slow+time.Duration(in.DurMs)*time.Millisecond)
+	defer cancel()
+	stop := make(chan struct{})
+	stopped := func() bool {
+		select {
+		case <-stop:
+			return true
+		default:
+			return false
+		}
+	}
+	var wg sync.WaitGroup
+	var hosts []host.Host
+	defer func() {
+		for _, h := range hosts {
+			_ = h.Close()
+		}
+	}()
+	var nHs, nStreams, nRedo atomic.Int64
+	newHost := func() host.Host {
+		h, err := c06RawHost(c06KeyFrom(r))
+		if err != nil {
+			panic("c06: raw host: " + err.Error())
+		}
+		hosts = append(hosts, h)
+		return h
+	}
+	// hammers: batches of handshake streams whose handler is started and then abandoned
+	for i := 0; i < in.Hammers; i++ {
+		h := newHost()
+		for g := 0; g < 3; g++ {
+			wg.Add(1)
+			go func(g int) {
+				defer wg.Done()
+				for !stopped() {
+					if h.Connect(ctx, target) != nil {
+						time.Sleep(time.Millisecond)
+						continue
+					}
+					var open []network.Stream
+					for k := 0; k < 6 && !stopped(); k++ {
+						s, err := h.NewStream(ctx, target.ID, handshake.ProtocolID())
+						if err != nil {
+							break
+						}
+						_, _ = s.Write([]byte{0, 0}) // negotiation is flushed, the handler starts and waits for the rest
+						open = append(open, s)
+						nHs.Add(1)
+					}
+					for k, s := range open {
+						if (k+g)%2 == 0 {
+							_ = s.Reset()
+						} else {
+							_ = s.Close()
+						}
+					}
+				}
+			}(g)
+		}
+	}
+	// a registered peer that keeps repeating a complete valid handshake
+	reg, err := c06RawHost(regKey)
+	if err != nil {
+		return c06Obs{Res: 2, Note: "raw host: " + err.Error()}
+	}
+	hosts = append(hosts, reg)
+	if err := c06Initiate(ctx, reg, regKey, foreign, svc, "E2Honest", 0, r); err == nil {
+		for g := 0; g < 2; g++ {
+			wg.Add(1)
+			rr := rand.New(rand.NewSource(in.Seed + int64(g) + 1))
+			go func() {
+				defer wg.Done()
+				for !stopped() {
+					if c06Initiate(ctx, reg, regKey, foreign, svc, "E2Honest", 0, rr) != nil {
+						time.Sleep(time.Millisecond)
+					}
+					nRedo.Add(1)
+				}
+			}()
+		}
+	}
+	// streamers: connected, never handshaken, opening streams of a registered protocol
+	for i := 0; i < in.Streamers; i++ {
+		h := newHost()
+		for g := 0; g < 3; g++ {
+			wg.Add(1)
+			go func() {
+				defer wg.Done()
+				for !stopped() {
+					if h.Connect(ctx, target) != nil {
+						time.Sleep(time.Millisecond)
+						continue
+					}
+					s, err := h.NewStream(ctx, target.ID, protoID)
+					if err != nil {
+						continue
+					}
+					_, _ = s.Write([]byte{0})
+					nStreams.Add(1)
+					_ = s.Reset()
+				}
+			}()
+		}
+	}
+	time.Sleep(time.Duration(in.DurMs) * time.Millisecond)
+	close(stop)
+	wg.Wait()
+	note := fmt.Sprintf("handshake streams %d, repeated handshakes %d, protocol streams %d", nHs.Load(), nRedo.Load(), nStreams.Load())
+	hon, err := c06RawHost(honestKey)
+	if err != nil {
+		return c06Obs{Res: 2, Note: "raw host: " + err.Error()}
+	}
+	defer hon.Close()
+	if err := c06Initiate(ctx, hon, honestKey, foreign, svc, "E2Honest", 0, r); err != nil {
+		return c06Obs{Res: 1, Note: c06Short("honest peer afterwards: " + err.Error() + "; " + note)}
+	}
+	if !c06Until(20*time.Second*slow, func() bool { _, ok := svc.peers.isConnected(hon.ID()); return ok }) {
+		return c06Obs{Res: 1, Note: c06Short("honest peer afterwards was not registered; " + note)}
+	}
+	return c06Obs{Res: 0, Note: note}
+}
+
 func c06CoqE2E(in c06In) string {
+	if in.Entry == "e2e-stress" {
+		return coqApp("EE2EStress", coqBool(in.Registry))
+	}
 	ctor := "EE2EOutbound"
 	if in.Entry == "e2e-inbound" {
 		ctor = "EE2EInbound"
@@ -595,9 +759,35 @@ func c06Child(t *testing.T) {
 			t.Fatalf("c06 child: bad input %d: %v", i, err)
 		}
 		put(c06ChildLine{I: i, Start: true})
-		obs := c06RunE2E(in, time.Duration(slow))
+		var obs c06Obs
+		if in.Entry == "e2e-stress" {
+			obs = c06RunStress(in, time.Duration(slow))
+		} else {
+			obs = c06RunE2E(in, time.Duration(slow))
+		}
 		put(c06ChildLine{I: i, Obs: &obs})
 	}
+}
+
+
+// c06CrashNote: why the child died (first "fatal error:" / "panic:" line) and the last lines it printed.
+func c06CrashNote(out string) string {
+	lines := strings.Split(strings.TrimSpace(out), "\n")
+	why := ""
+	for _, l := range lines {
+		if strings.HasPrefix(l, "fatal error:") || strings.HasPrefix(l, "panic:") {
+			why = l
+			break
+		}
+	}
+	if len(lines) > 6 {
+		lines = lines[len(lines)-6:]
+	}
+	note := why + " | ... " + strings.Join(lines, " / ")
+	if len(note) > 600 {
+		note = note[:600]
+	}
+	return note
 }
 
 func c06RunInChildren(t *testing.T, ins []c06In, slow int) []c06Obs {
@@ -647,11 +837,7 @@ func c06RunInChildren(t *testing.T, ins []c06In, slow int) []c06Obs {
 			f.Close()
 		}
 		if started > done { // the child died inside case [started]
-			note := string(outb)
-			if i := strings.Index(note, "panic:"); i >= 0 {
-				note = note[i:]
-			}
-			out[started] = c06Obs{Panic: true, Note: c06Short(note)}
+			out[started] = c06Obs{Panic: true, Note: c06CrashNote(string(outb))}
 			done = started
 		} else if done < from {
 			t.Fatalf("c06: child made no progress from case %d: %v\n%s", from, runErr, outb)
@@ -849,7 +1035,11 @@ func TestVerifC06(t *testing.T) {
 	var children []pending
 	run := func(class string, in c06In) {
 		if strings.HasPrefix(in.Entry, "e2e-") {
-			if c06ValidClass(in.Cls) {
+			if in.Entry == "e2e-stress" {
+				if in.DurMs > 0 && in.DurMs <= 120000 && in.Hammers >= 0 && in.Hammers <= 16 && in.Streamers >= 0 && in.Streamers <= 16 {
+					children = append(children, pending{class, in})
+				}
+			} else if c06ValidClass(in.Cls) {
 				children = append(children, pending{class, in})
 			}
 			return
@@ -912,6 +1102,15 @@ func TestVerifC06(t *testing.T) {
 				run("e2e-inbound-"+cls, c06In{Pkg: c06Pkg, Entry: "e2e-inbound", Registry: true, Cls: cls, Variant: k + ci, Seed: r.Int63()})
 			}
 		}
+	}
+	// stress: concurrent hostile hosts against one Service (once in the quick tier)
+	stress := 1
+	dur := 2500
+	if full {
+		stress, dur = 4, 8000
+	}
+	for k := 0; k < stress; k++ {
+		run("e2e-stress", c06In{Pkg: c06Pkg, Entry: "e2e-stress", Registry: k%2 == 1, Seed: r.Int63(), DurMs: dur, Hammers: 3, Streamers: 3})
 	}
 	flush()
 }
